@@ -349,6 +349,8 @@ impl CodegenContext {
         self.pass_idx += 1;
         self.next_macro_scope_id = 0;
         self.macro_depth_exceeded = false;
+        #[cfg(mos_verif)]
+        verif_hooks::work_reset();
 
         log::trace!("\n* NEXT PASS ({}) *", self.pass_idx);
         self.segments.values_mut().for_each(|s| s.reset());
@@ -542,6 +544,8 @@ impl CodegenContext {
     }
 
     fn emit_token(&mut self, token: &Token) -> CoreResult<()> {
+        #[cfg(mos_verif)]
+        verif_hooks::work_tick();
         match token {
             Token::Align { value, .. } => {
                 if let Some(pc) = self.try_current_target_pc() {
@@ -1481,6 +1485,35 @@ pub mod verif_hooks {
 
     pub fn set_observer(o: Option<Observer>) {
         OBSERVER.with(|c| *c.borrow_mut() = o);
+    }
+
+    thread_local! {
+        /// (tokens emitted in the current pass, budget per pass; 0 = unlimited)
+        static WORK: ::std::cell::Cell<(u64, u64)> = const { ::std::cell::Cell::new((0, 0)) };
+    }
+
+    /// Logical clock inside a pass: panics with a marker once one pass has emitted more tokens than the budget
+    pub fn set_work_budget(budget: u64) {
+        WORK.with(|w| w.set((0, budget)));
+    }
+
+    pub fn work_done() -> u64 {
+        WORK.with(|w| w.get().0)
+    }
+
+    pub(super) fn work_reset() {
+        WORK.with(|w| w.set((0, w.get().1)));
+    }
+
+    pub(super) fn work_tick() {
+        WORK.with(|w| {
+            let (n, budget) = w.get();
+            w.set((n + 1, budget));
+            if budget != 0 && n + 1 > budget {
+                w.set((0, budget));
+                panic!("VERIF-WORK-BUDGET: more than {} tokens emitted in one pass", budget);
+            }
+        });
     }
 
     fn h<T: Hash>(t: &T) -> u64 {
